@@ -102,7 +102,7 @@ class VC:
             for i in sel:
                 s.add(allh[i][0])
             s.add(z3.Not(self.goal))
-            out.append(s.to_smt2())
+            out.append(_fix_order(s.to_smt2()))
         text([])
         cone = set(gs)
         sel = [i for i, sy in enumerate(syms) if sy & cone]
@@ -130,7 +130,7 @@ class VC:
                 s.add(h)
         if self.kind == "valid":
             s.add(z3.Not(self.goal))
-        txt = s.to_smt2()
+        txt = _fix_order(s.to_smt2())
         return txt
 
 
@@ -161,3 +161,17 @@ def _symbols(e):
             stack.extend(x.children())
     _SYM_CACHE[key] = frozenset(out)
     return _SYM_CACHE[key]
+
+
+def _fix_order(txt):
+    """z3's printer may emit declare-datatypes before the declare-sort lines they depend on."""
+    lines = txt.split("\n")
+    sorts = [l for l in lines if l.startswith("(declare-sort ")]
+    if not sorts:
+        return txt
+    rest = [l for l in lines if not l.startswith("(declare-sort ")]
+    # keep leading comment/set-info lines first
+    k = 0
+    while k < len(rest) and (rest[k].startswith(";") or rest[k].startswith("(set-")):
+        k += 1
+    return "\n".join(rest[:k] + sorts + rest[k:])
